@@ -286,12 +286,12 @@ mkbinaryexpr(struct location *loc, enum tokenkind op, struct expr *l, struct exp
 			r = exprconvert(r, l->type);
 			break;
 		}
+		if (r->type->kind != TYPEPOINTER)
+			error(loc, "invalid operands to '%s' operator", tokstr[op]);
 		if (nullpointer(eval(l))) {
 			l = exprconvert(l, r->type);
 			break;
 		}
-		if (r->type->kind != TYPEPOINTER)
-			error(loc, "invalid operands to '%s' operator", tokstr[op]);
 		if (l->type->base->kind == TYPEVOID)
 			e = l, l = r, r = e;
 		if (r->type->base->kind == TYPEVOID && l->type->base->kind != TYPEFUNC)
